@@ -93,6 +93,10 @@ func genOp(t *rapid.T) Op {
 			op.Labels[l] = rapid.SampledFrom([]string{"x", "y"}).Draw(t, "lv")
 		}
 	}
+	if rapid.IntRange(0, 7).Draw(t, "ownHookLabel") == 0 {
+		// a hook may write a label called "hook" itself
+		op.Labels["hook"] = "h9"
+	}
 	short := rapid.IntRange(0, 2).Draw(t, "shortcut") == 0
 	switch ni.typ {
 	case "counter":
@@ -203,10 +207,12 @@ func info(name string) *nameInfo {
 
 func (m *model) apply(b Batch) {
 	withHook := func(l map[string]string) string {
-		x := map[string]string{"hook": b.Hook}
+		x := map[string]string{}
 		for k, v := range l {
 			x[k] = v
 		}
+		// the label "hook" always names the hook that reported the batch, whatever the hook itself wrote there
+		x["hook"] = b.Hook
 		return canonLabels(x)
 	}
 	mentioned := map[string]bool{}
